@@ -345,6 +345,10 @@ class GroupedList(list):
             group_member in self.content[group_leader]
         ), f" - [GroupedList] {group_member} is not in {group_leader}"
 
+        # nothing to replace when the member already is the leader (popping it would lose the group)
+        if is_equal(group_leader, group_member):
+            return
+
         # replacing in the list
         group_idx = self.index(group_leader)
         self[group_idx] = group_member
